@@ -119,7 +119,9 @@ def _content(path, width, kind, number, param_value):
     raise ValueError(f"unknown pinned kind {kind}")
 
 
-def write(name, spec=None, params=None):
+def write(name, spec=None, params=None, record_lengths=False):
+    """record_lengths=True: every fixed-size record's preamble.record_length carries the record's pinned size (as in real products)
+    instead of a probe value"""
     spec = spec or LS.load()
     params = dict(PARAMS[name] if params is None else params)
     entry = spec[name]
@@ -138,6 +140,14 @@ def write(name, spec=None, params=None):
         buf[off:off + width] = raw
         if want is not None:
             expected[path] = want
+    if record_lengths:
+        leaves = expand(entry, params)
+        for path, off, width, kind in leaves:
+            if path[-2:] == ("preamble", "record_length") and ".".join(path) not in pvals:
+                ext = [(o, o + w) for p2, o, w, _ in leaves if p2[:len(path) - 2] == path[:-2]]
+                size = max(b for _, b in ext) - min(a for a, _ in ext)
+                buf[off:off + width] = size.to_bytes(width, "big")
+                expected[path] = size
     return bytes(buf), expected
 
 
